@@ -30,7 +30,8 @@ Cases(kind) == UNION { {[op |-> "segmented", kind |-> kind, off |-> o, m |-> m, 
                        {[op |-> op, kind |-> kind, off |-> o, m |-> 1, r |-> 0] : op \in {"to_crs_same_spelling", "to_crs_no_crs"}, o \in {"origin", "far"}},
                        \* prior: what the process did with this CRS pair before (the transformer cache is keyed by pair and axis-order flag;
                        \* to_crs must map vertices as the projection library does whatever was requested earlier)
-                       {[op |-> "to_crs_real", kind |-> kind, off |-> o, m |-> 1, r |-> r, pair |-> pr, prior |-> pz] : o \in {"origin", "neg"}, r \in {0, 20},
+                       \* r = -1: resolution "auto" (the library picks the densification step); fix: also asked to check-and-fix the (valid) result - nothing to fix
+                       {[op |-> "to_crs_real", kind |-> kind, off |-> o, m |-> 1, r |-> r, pair |-> pr, prior |-> pz] : o \in {"origin", "neg"}, r \in {0, 20, -1},
                            pz \in {"none", "authority_axis_order_transformer_first"},
                            pr \in {"4326>3857", "3857>4326", "32633>4326", "4326>3035", "3035>32633", "6933>4326"}} }
 VARIABLE c
